@@ -19,6 +19,9 @@ prop(
          "a rule-trim commit changes ONE rule only by deleting whole lines of it, nothing else in the file changing (last key, last or "
          "only label/annotation entry, last line of a literal-block expression; or a middle line: control comment, a key followed by "
          "others, a non-last map entry, first/middle expression line), the rule drawn uniformly over first/middle/last positions; "
+         "one generated file in five also holds a rule with a rule-level defect (recording rule with for/annotations, alert without expr, "
+         "alert+record, duplicated key, bad label name/value; added/removed on the branch too): it is not judged itself, the valid rules "
+         "around it are; "
          "one history in two additionally holds a directed chain on ONE file: 2-4 consecutive steps (own commits) from {pure rename, edit, "
          "exact revert of the previous edit, rename back, delete + re-add with the same content, comment/whitespace-only edit with or "
          "without revert}, placed last in half of the cases, so that files byte-identical to their base version after a non-trivial path "
